@@ -274,9 +274,22 @@ def unknown_name_stream(ctx, n):
             from harness import layers
             from harness.props import c05
             rest = sorted(x for x in present if x != good and x not in batch and x != "r")
-            for subj_is_bad in (True, False):
+            import re as _re
+            for subj_is_bad in (True, False, "mixed"):
                 arch_calls = [("LB", "list", list(batch)), ("LG", "list", [good])]
-                cc = dict(arch_calls=arch_calls, subj="LB" if subj_is_bad else "LG", objs=["LG" if subj_is_bad else "LB"], obj_as_str=False)
+                cc = dict(arch_calls=arch_calls, subj="LB" if subj_is_bad is True else "LG", objs=["LG" if subj_is_bad is True else "LB"], obj_as_str=False)
+                if subj_is_bad == "mixed":
+                    # the layer with the absent name in ONE object batch with a layer defined by a regular expression (listed last):
+                    # how a layer was defined is a property of that layer, not of the batch it is named in
+                    if not rest:
+                        continue
+                    # ... the absent name being a real module's name without its last letter (read as a pattern it would match)
+                    cut = sorted(m[:-1] for m in present if m not in ("r", good) and not m[:-1].endswith(".") and m[:-1] not in present)
+                    if cut and rng.random() < 0.7:
+                        arch_calls = [("LB", "list", [rng.choice(cut)]), ("LG", "list", [good])]
+                    arch_calls = arch_calls + [("LR", "regex", _re.escape(rest[0]) + "$")]
+                    cc = dict(arch_calls=arch_calls, subj="LG", objs=["LB", "LR"], obj_as_str=False)
+                    ctx.stat("unknown_name_layer_in_a_batch_with_a_regex_layer")
                 hs, metas = c05.histories(cc)
                 res, _pair = layers.eval_layer_histories(nodes, edges, hs)
                 for meta, (io, mo) in zip(metas, res):
@@ -284,7 +297,7 @@ def unknown_name_stream(ctx, n):
                     ctx.stat("unknown_name_in_layer_" + io[0])
                     case = dict(nodes=nodes, edges=edges, layers=[[a, b, v] for a, b, v in arch_calls], rule=dict(meta, subject=cc["subj"], objects=cc["objs"]), impl=io[0])
                     # the any-layer aliases take no object: a rule about LG does not mention the layer LB at all
-                    mentions = subj_is_bad or not meta["anything"]
+                    mentions = subj_is_bad is True or not meta["anything"]
                     if mentions and io[0] in ("PASS", "FAIL"):
                         ctx.violation(case, f"layer rule over a layer that lists the absent module {bad!r} produced the verdict {io[0]}", {"kind": "unknown_name_layer"})
                     if not layers.same_layer_outcome(io, mo, lines=False):
